@@ -135,6 +135,63 @@ pub fn gen(tier: &str, seed: u64) -> Vec<String> {
             }
         }
     }
+    // dynamic macro recorder (outside the kanata-level model; decided by the paired loops): the
+    // recorder counts the ticks between the events it records (`current_delay`), so time that the
+    // loop spends parked while a recording runs is time-driven state too. Record - type with a gap
+    // of g ms inside - stop - replay; in the layered configuration the replay runs where the typed
+    // key is a tap-hold, so a shortened recorded delay changes the KEY that is typed
+    {
+        let flat = |beh: &str| format!(
+            "(defcfg dynamic-macro-replay-delay-behaviour {beh})\n(defsrc a b c)\n(deflayer base a (dynamic-macro-record 1) (dynamic-macro-play 1))\n");
+        let layered = |beh: &str| format!(
+            "(defcfg dynamic-macro-replay-delay-behaviour {beh})\n(defsrc a b c d)\n(deflayer l0 a (dynamic-macro-record 1) (dynamic-macro-play 1) (layer-switch l1))\n(deflayer l1 (tap-hold 0 50 x y) (dynamic-macro-record 1) (dynamic-macro-play 1) (layer-switch l0))\n");
+        let stopkey = |beh: &str| format!(
+            "(defcfg dynamic-macro-replay-delay-behaviour {beh})\n(defsrc a b c d)\n(deflayer base (tap-hold 0 50 x y) (dynamic-macro-record 1) (dynamic-macro-play 1) dynamic-macro-record-stop)\n");
+        let k = |n: &str| code(n);
+        // a generator of its own, so that the families below draw what they drew before
+        let mut r = Rng::new(seed ^ 0xC07D);
+        let tap = |h: &mut Vec<KEv>, key: u16, g: u32| {
+            h.push(KEv::L(HEv::Press(0, key)));
+            h.push(KEv::L(HEv::Release(0, key)));
+            h.push(KEv::Gap(g));
+        };
+        for beh in ["recorded", "constant"] {
+            for g in [1u32, 10, 49, 50, 51, 100, 300] {
+                for g2 in [1u32, 10, g] {
+                    // record (b), hold a for g ms, pause g2, stop by the record key, replay (c)
+                    let mut h = vec![];
+                    tap(&mut h, k("b"), 10);
+                    h.push(KEv::L(HEv::Press(0, k("a"))));
+                    h.push(KEv::Gap(g));
+                    h.push(KEv::L(HEv::Release(0, k("a"))));
+                    h.push(KEv::Gap(g2));
+                    tap(&mut h, k("b"), 10);
+                    tap(&mut h, k("c"), 600);
+                    lines.push(mk_kline("KAN", false, &flat(beh), &h));
+                    // the same, replayed on the layer where a is a tap-hold
+                    let mut h2 = h.clone();
+                    h2.truncate(h2.len() - 3);
+                    tap(&mut h2, k("d"), 10);
+                    tap(&mut h2, k("c"), 600);
+                    lines.push(mk_kline("KAN", false, &layered(beh), &h2));
+                    // stopped by the stop key; a is a tap-hold while it is typed as well
+                    let mut h3 = h.clone();
+                    h3.truncate(h3.len() - 6);
+                    tap(&mut h3, k("d"), 10);
+                    tap(&mut h3, k("c"), 600);
+                    lines.push(mk_kline("KAN", false, &stopkey(beh), &h3));
+                }
+            }
+            for cfgt in [flat(beh), layered(beh), stopkey(beh)] {
+                let ks: Vec<u16> = if cfgt.contains("a b c d") { vec![k("a"), k("b"), k("c"), k("d")] } else { vec![k("a"), k("b"), k("c")] };
+                for _ in 0..(if thorough { 200 } else { 12 }) {
+                    let n_ev = r.range(4, 16) as usize;
+                    let h = loop_history(&mut r, &ks, n_ev, &[1, 2, 10, 49, 50, 51, 120], 600);
+                    lines.push(mk_kline("KAN", false, &cfgt, &h));
+                }
+            }
+        }
+    }
     // random whole-grammar configurations
     let n = if thorough { 25000 } else { 2200 };
     for i in 0..n {
